@@ -351,7 +351,8 @@ def hunt(focus, seed, substr=""):
         if rec.get("fault") and rec["fault"].get("plan"):
             sc["ops"][rec["i"]]["fault"] = rec["fault"]["plan"]
     for v in r["violations"]:
-        if substr in v["detail"] or substr in json.dumps(v["sig"], sort_keys=True):
+        hay = v["detail"] + " " + json.dumps(v["sig"], sort_keys=True)
+        if all(part in hay for part in substr.split("&&")):
             small, attempts = shrink.shrink_project(engine_project.execute, sc, v["sig"], max_attempts=400, max_seconds=90)
             vv = shrink.has_sig(engine_project.execute(small), v["sig"])
             path = write_replay(v["property"], v["sig"], small, vv["detail"], "project", {"shrink_attempts": attempts})
